@@ -17,7 +17,7 @@ def build():
 # ---------------------------------------------------------------------------------------------------------
 # shared by c17/c18: executions -> driver -> trace -> TLC trace spec in parallel chunks (cut at "reset" events)
 
-def check_execs(ctx, binary, executions, tag, module, cfg, key_of, nchunks=6, driver_timeout=900, tlc_timeout=1200,
+def check_execs(ctx, binary, executions, tag, module, cfg, key_of, nchunks=6, driver_timeout=4000, tlc_timeout=1200,
                 env=None, xmx="3g"):
     trace = os.path.join(ctx.work, "trace_%s.ndjson" % tag)
     dr = vlib.run_driver(binary, executions, trace, timeout=driver_timeout)
